@@ -517,7 +517,7 @@ impl Engine for FileE2e {
                                         if n > 20_000 {
                                             sc.probe("channel_overflowed_more_than_once_while_stalled");
                                         }
-                                        let bound = half_queue * 22 / 10 + 1_500_000;
+                                        let bound = half_queue * 22 / 10 + 3_000_000;
                                         if total > bound {
                                             sc.violate(
                                                 "C09",
